@@ -76,7 +76,7 @@ Definition loads_prefs (p : str) : bool :=
   existsb (str_eqb (path_base p)) loads_prefs_names || contains_path loads_prefs_dir p.
 
 (* the lines of a fragment ([fline]: FInclude path | FAssign v | FOpen guard | FClose |
-   FOther) are the syntax shared with Spec/PrefsFile.v *)
+   FUndef v | FOther) are the syntax shared with Spec/PrefsFile.v *)
 
 Record fstate := mkfstate {
   fs_seen_prefs : bool;       (* MkLines.Tools.SeenPrefs *)
@@ -96,6 +96,7 @@ Definition scan_line (st : fstate) (l : fline) : fstate :=
     if is_conditional st then st else mkfstate (fs_seen_prefs st) (v :: fs_defined st) (fs_levels st)
   | FOpen g => mkfstate (fs_seen_prefs st) (fs_defined st) (g :: fs_levels st)
   | FClose => mkfstate (fs_seen_prefs st) (fs_defined st) (tl (fs_levels st))
+  | FUndef _ => st            (* checkDirective only comments on .undef; vars keeps the name *)
   | FOther => st
   end.
 
